@@ -51,7 +51,7 @@ pub fn prop() -> Prop<Hist> {
         rule: "Cases are histories with merges under arbitrary thresholds; half of the cases force small_file = u64::MAX so that every non-empty file is eligible; in the other half eligibility of every non-empty file is decided per merge by ground truth (the documented strict thresholds applied to an independent scan of the files). Around every merge: total size of *.data must not grow; whenever every non-empty file was eligible the total must equal the sum of 25+|k|+|v| over the live pairs (as read before the merge), equal the measured size of a reference store freshly built from those pairs (differential, sampled), an independent decoder must find each live key exactly once and no tombstone, and a second merge must change neither total size nor any read. Non-trivial: a merge that removed at least two non-empty files containing at least one dead entry; distinct = distinct hash of the whole case.",
         assumptions: &["sizes are measured with the store open (the new empty active file counts 0 bytes)"],
         needs_shim: false,
-        budget: |t| t.pick(16000, 250000),
+        budget: |t| t.pick(48000, 250000),
         shards: |_| 16,
         strategy,
         exec,
